@@ -41,7 +41,7 @@ THEOREMS = [
     "HgVerif.RefLink.ref_own_delta_when_no_retarget",
     "HgVerif.RefLink.ref_retarget_samples", "HgVerif.RefLink.ref_retarget_samples_keyed_partial",
     "HgVerif.RefLink.ref_retarget_keyed_full_refuted", "HgVerif.RefLink.ref_delta_value_keyed_refuted",
-    "HgVerif.RefLink.cycle_sched_nil", "HgVerif.RefLink.applyDelta_keys_spec",
+    "HgVerif.RefLink.cycle_sched_nil", "HgVerif.RefLink.reach_sched", "HgVerif.RefLink.applyDelta_keys_spec",
 ]
 CXX_TARGETS = ["hgv_ref"]
 RULE = ("graphs replay(sel),replay(a),replay(b)[,replay(c)] -> if_then_else|if_cmp -> [direct|nested pass|nested inner|"
@@ -61,6 +61,10 @@ ASSUMPTIONS = ["simulation mode, dense 'testing' record/replay backend, start ti
                "references are peered references to whole outputs (no empty references, no non-peered/structural "
                "references, no TSB/TSL shapes); selection by if_then_else / if_cmp only (switch_ is C12's)",
                "a replayed delta never names the same key in its set and delete part",
+               "the clamp of graph.cpp nested_schedule_node_impl is neither modelled nor exercised: in these graphs "
+               "every cross-boundary notification already carries the parent's current time (a probe build that "
+               "aborts on an earlier time never fired); evaluations of an all-Unchecked consumer inside a nested "
+               "graph at child start / at a boundary REF tick are known finding F2 (C09) and are reproduced, not judged",
                "ref_retarget_samples_keyed_partial carries the hypothesis that the previous target ticked in the "
                "retarget cycle or holds no pending-erase slot from its last tick; without it the statement is "
                "refuted in the model (ref_retarget_keyed_full_refuted) and on the implementation ([C13-B])",
